@@ -9,6 +9,8 @@ import DendroModel.Theory.C08Gen
 import DendroModel.Theory.C08ExtractG
 import DendroModel.Theory.C08Labels
 import DendroModel.Theory.C08Upd
+import DendroModel.Theory.C08Parse
+import DendroModel.Theory.C08Strike
 /-! C08 — property theorems.  Every `theorem` directly in `namespace DendroModel.C08` of this file is an obligation.
 They are statements about the definitions `drv_c08` executes (`Model/C08.lean`): the mechanisms as the code runs them
 (`pruneTaxa` = strike pass + leaf-removal loop + `T.sup`; `filterLeaves`; `retainTaxa`; `extractTree` = memo-driven fold over
@@ -605,6 +607,104 @@ theorem restrict_pathlen_parsed (keep p q : Acc) (hp : ∀ i x, p i x = true →
   restrict_pathlen_exec keep p q hp hq sup t r (parseTree_lensWF toks t rest hparse)
     (restrict_lensWF keep sup t r (parseTree_lensWF toks t rest hparse) hr) hr
 
+/-! ### distinct node ids are DERIVED for driver inputs -/
+
+/-- every tree the shared protocol parser returns has pairwise distinct node ids, for any token list it accepts (parent arrays
+    with cycles or dangling entries included: those are unreachable from the entry whose parent is -1); via the C15 analysis of
+    `buildTree` -/
+theorem parseTree_ids_nodup (toks : List String) (t : T) (rest : List String) (h : parseTree toks = some (t, rest)) :
+    (ids t).Nodup :=
+  parseTree_ids_nodup' toks t rest h
+
+/-- so the driver's input guard never refuses anything the parser accepts: `checkedTree` IS `parseTree`, and the hypotheses
+    `(ids t).Nodup`, `LensWF t` of the theorems above hold for every driver input without relying on the guard -/
+theorem checked_guard_never_fires (toks : List String) : checkedTree toks = parseTree toks := by
+  unfold checkedTree
+  cases hp : parseTree toks with
+  | none => rfl
+  | some p =>
+    obtain ⟨t, rest⟩ := p
+    simp [parseTree_ids_nodup toks t rest hp]
+
+/-- extraction on a parsed tree, no side condition left: the memo fold equals the two-flag specification -/
+theorem extract_flags_parsed (acc : Acc) (fl fi sup : Bool) (toks rest : List String) (t : T)
+    (hparse : parseTree toks = some (t, rest)) :
+    extractTree acc fl fi sup t = match exSpec acc fl fi sup t with | some r => .ok r | none => exErr acc fl fi t :=
+  extract_flags_eq_spec acc fl fi sup t (parseTree_ids_nodup toks t rest hparse)
+
+/-! ### the first pass of `prune_taxa` on arbitrary trees (taxa on internal nodes), independently described -/
+
+/-- `allIn` is "every node at or below carries a pruned taxon", stated on the flat node list -/
+theorem allIn_spec (P : Nat → Bool) (t : T) : allIn P t = t.nodes.all (fun n => inP P n.taxon) :=
+  allIn_nodes P t
+
+/-- default flags (leaf flag on, internal flag off), any tree: the post-order `strike` pass removes EXACTLY the nodes all of whose
+    subtree (themselves included) carries pruned taxa — the surviving nodes are the others, in pre-order with unchanged records,
+    and the parent/child pairs among them are unchanged; the seed goes iff everything carries pruned taxa -/
+theorem strike_default_spec (P : Nat → Bool) (t : T) :
+    (strike P true false t).isNone = allIn P t ∧
+    (∀ r, strike P true false t = some r →
+      r.nodes.map head = (t.nodes.filter (fun n => !allIn P n)).map head ∧
+      (pedges r).map eview = ((pedges t).filter (fun e => !allIn P e.2)).map eview) :=
+  ⟨(strike_default P t).1, fun r hr => ((strike_default P t).2 r hr).2⟩
+
+/-- the first pass for the three flag settings that have a closed description equals `strikeSpec` (the driver runs it: op
+    `strikespec`; the harness compares it with a from-scratch computation): both flags on = every node carrying a pruned taxon goes
+    with its subtree (`chop`, decided top-down); default = `sweep` (top-down with `allIn`); both off = nothing happens.
+    (leaf flag off + internal flag on has no closed form here.) -/
+theorem strike_eq_strikeSpec (P : Nat → Bool) (fl fi : Bool) (t : T) (r : Option T)
+    (h : strikeSpec P fl fi t = some r) : strike P fl fi t = r := by
+  cases fl <;> cases fi <;> simp only [strikeSpec, Option.some.injEq] at h
+  · rw [← h]; exact strike_none P t
+  · cases h
+  · rw [← h]; exact strike_eq_sweep P t
+  · rw [← h]; exact strike_both P t
+
+/-- hence `prune_taxa` with those flag settings on ANY tree, both phases specified independently of the loops:
+    `strikeSpec`, then `restrictA hasTaxon` (taxon-less leaves go until none is left), then suppression -/
+theorem prune_flags_full_spec (P : Nat → Bool) (fl fi sup : Bool) (t : T) (r : Option T)
+    (h : strikeSpec P fl fi t = some r) :
+    pruneTaxa P fl fi sup t = r.bind (fun t1 => (restrictA hasTaxon t1).map (supIf sup)) := by
+  rw [prune_flags_eq_spec, strike_eq_strikeSpec P fl fi t r h]
+
+/-! ### by label and `prune_leaves_without_taxa`, with `update_bipartitions=True`, any rooting state -/
+
+/-- `prune_taxa_with_labels` / `retain_taxa_with_labels(…, update_bipartitions=True)`: the re-encoding (`reencode`: basal collapse
+    when not rooted, suppression, fresh leafset/split list — see `upd_rooted_encoding`, `upd_not_rooted`) applied to the subtree
+    induced by the leaves whose labels are not named resp. named -/
+theorem labels_upd_eq (rooted : Option Bool) (cs : Bool) (ns : Ns) (labels : List String) (sup : Bool) (t : T)
+    (h : InnerNoTaxon t) (hnd : (ids t).Nodup) (hl : ∀ lf ∈ t.leaves, lf.taxon ≠ none)
+    (hns : ∀ lf ∈ t.leaves, ∀ k, lf.taxon = some k → k ∈ ns.map (·.1)) :
+    pruneWithLabelsUpd rooted cs ns labels sup t
+      = (restrict (keepTaxa (fun k => !named cs ns labels k)) sup t).map (reencode rooted sup) ∧
+    retainWithLabelsUpd rooted cs ns labels sup t
+      = (restrict (keepTaxa (named cs ns labels)) sup t).map (reencode rooted sup) := by
+  obtain ⟨h1, h2, _, _⟩ := labels_variants_eq_restrict cs ns labels sup t h hnd hl hns
+  exact ⟨by unfold pruneWithLabelsUpd; rw [h1], by unfold retainWithLabelsUpd; rw [h2]⟩
+
+/-- `prune_leaves_without_taxa(update_bipartitions=True)` on a tree whose internal nodes carry no taxon, any rooting state: the
+    re-encoding of the subtree induced by the leaves that carry a taxon; when the tree is not rooted that is the induced subtree
+    with its basal bifurcation collapsed, and the encoding lists exactly its clades -/
+theorem plwt_upd_eq (rooted : Option Bool) (sup : Bool) (t : T) (h : InnerNoTaxon t) :
+    pruneLeavesWithoutTaxaUpd rooted sup t = (restrict hasTaxon sup t).map (reencode rooted sup) ∧
+    (rooted ≠ some true → ∀ r x, pruneLeavesWithoutTaxaUpd rooted sup t = some (r, x) →
+      ∃ r0, restrict hasTaxon sup t = some r0 ∧ r = supIf sup r0.collapseBasal ∧ x.map (·.1) = r.masksPost) := by
+  have e : pruneLeavesWithoutTaxaUpd rooted sup t = (restrict hasTaxon sup t).map (reencode rooted sup) := by
+    unfold pruneLeavesWithoutTaxaUpd filterLeavesUpd
+    rw [← filter_eq_restrict hasTaxon (fun _ => rfl) sup t h, Option.map_map]
+    rfl
+  refine ⟨e, fun hr r x hx => ?_⟩
+  rw [e] at hx
+  cases hres : restrict hasTaxon sup t with
+  | none => rw [hres] at hx; cases hx
+  | some r0 =>
+    rw [hres] at hx
+    simp only [Option.map_some, Option.some.injEq] at hx
+    obtain ⟨h1, h2⟩ := upd_not_rooted rooted hr sup r0
+    rw [hx] at h1 h2
+    simp only at h1 h2
+    exact ⟨r0, rfl, h1, by rw [h2, h1]⟩
+
 /-! ### the hypotheses are satisfiable, the statements are not vacuous -/
 def demo : T :=
   .node 0 none (some ⟨9, 1⟩) none
@@ -632,6 +732,17 @@ example : (restrictA (fun i _ => i == 4 || i == 2) demo).map T.render = some "(0
 example : (filterLeaves (fun i _ => i == 4 || i == 2) false false demo).map (·.2) = some [3, 5, 7, 8] := by decide
 example : (match extractTree (fun _ _ => false) true false true demo with | .seedDeletion => true | _ => false) = true := by decide
 example : (allDists demo).length = 10 := by decide
+def demoInner : T :=
+  .node 0 (some 9) none none [.node 1 (some 5) none none [.node 2 (some 0) none none [], .node 3 (some 1) none none []],
+    .node 4 (some 6) none none [.node 5 (some 2) none none []]]
+example : (strikeSpec (fun k => k == 0 || k == 1 || k == 5 || k == 2) true false demoInner).map (Option.map T.render)
+    = some (some "(0 9 N (4 6 N))") := by decide
+example : (strike (fun k => k == 0 || k == 1 || k == 5 || k == 2) true false demoInner).map T.render = some "(0 9 N (4 6 N))" := by decide
+example : (strikeSpec (fun k => k == 5) true true demoInner).map (Option.map T.render) = some (some "(0 9 N (4 6 N (5 2 N)))") := by decide
+example : (pruneLeavesWithoutTaxaUpd (some false) true demo).map (fun r => (r.1.render, r.2.map (·.1)))
+    = some ("(0 - 9 (1 - 11 (2 0 1) (3 1 2)) (5 2 4) (6 - 7 (7 3 5) (8 4 6)))", [1, 2, 3, 4, 8, 16, 24, 31]) := by decide
+example : (pruneWithLabelsUpd none true [(0, "A"), (1, "A"), (2, "B"), (3, "C"), (4, "D")] ["A"] true demo).map (fun r => r.1.render)
+    = some "(4 - 17 (5 2 11) (7 3 5) (8 4 6))" := by decide
 example : ((reencode (some false) true demo).1.render, (reencode (some false) true demo).2.map (·.1))
     = ("(0 - 9 (1 - 11 (2 0 1) (3 1 2)) (5 2 4) (6 - 7 (7 3 5) (8 4 6)))", [1, 2, 3, 4, 8, 16, 24, 31]) := by decide
 example : (demo.collapseBasal.masksPost.length, demo.masksPost.length) = (8, 9) := by decide
